@@ -1031,6 +1031,127 @@ theorem purge_cuts_exact (cs : List Cut) (name : Bytes) (qclass : UInt16) (c : C
   intro _
   by_cases h1 : c.name ∈ cutSuffixes (canonicalName name) <;> by_cases h2 : c.qclass = qclass <;> simp [h1, h2]
 
+/-- the suffix walk of `nxDomainCutCache.purge` removes a cut exactly when its denied name is
+one of the candidates walked (and the class is the purged one) — every candidate, not the first. -/
+theorem purgeCutsWalk_mem (qclass : UInt16) (cands : List Bytes) (cs : List Cut) (c : Cut) :
+    c ∈ purgeCutsWalk cs qclass cands ↔ c ∈ cs ∧ ¬(c.name ∈ cands ∧ c.qclass = qclass) := by
+  induction cands generalizing cs with
+  | nil => simp [purgeCutsWalk]
+  | cons cand rest ih =>
+    unfold purgeCutsWalk
+    rw [ih]
+    simp only [List.mem_filter, List.mem_cons]
+    by_cases h1 : c.name = cand <;> by_cases h2 : c.qclass = qclass <;> simp [h1, h2]
+
+/-- **Purge over nested cuts removes EVERY covering cut**: after `nxDomainCutCache.purge` for a
+question — the loop as written, suffix by suffix — the decoded cut lookup for the purged name
+finds nothing, however many validated cuts covered it before (a cut at the name, one at its
+parent, one at the TLD, …) and whatever the wire index holds; and the decoded ladder built on
+that store never answers the purged question from a cut. -/
+theorem purge_removes_every_covering_cut (H : Bytes → UInt64) (cs : List Cut) (bh : UInt64 → Option Cut)
+    (name : Bytes) (qtype qclass : UInt16) :
+    cutLookup { entries := purgeCutsLoop cs name qclass, byHash := bh } name qclass = none ∧
+    (∀ c, c ∈ purgeCutsLoop cs name qclass ↔ c ∈ purgeCuts cs name qclass) ∧
+    (∀ st fs cd client hasECS c,
+      serveMsg H { st := st, fs := fs, cs := { entries := purgeCutsLoop cs name qclass, byHash := bh } }
+        name qtype qclass cd client hasECS ≠ Outcome.cut c) ∧
+    (∀ st fs cd hasECS c,
+      storeGet H { st := st, fs := fs, cs := { entries := purgeCutsLoop cs name qclass, byHash := bh } }
+        name qtype qclass cd hasECS ≠ Outcome.cut c) := by
+  have hnone : ∀ bh', cutLookup { entries := purgeCutsLoop cs name qclass, byHash := bh' } name qclass = none := by
+    intro bh'
+    cases hl : cutLookup { entries := purgeCutsLoop cs name qclass, byHash := bh' } name qclass with
+    | none => rfl
+    | some c =>
+      obtain ⟨hm, _, hq, hn⟩ := route_identity_cutLookup _ name qclass c hl
+      have := (purgeCutsWalk_mem qclass (cutSuffixes (canonicalName name)) cs c).mp hm
+      exact absurd ⟨hn, hq⟩ this.2
+  refine ⟨hnone bh, ?_, ?_, ?_⟩
+  · intro c
+    rw [purge_cuts_exact]
+    exact purgeCutsWalk_mem qclass _ cs c
+  · intro st fs cd client hasECS c h
+    unfold serveMsg at h
+    simp only [hnone bh, ite_self] at h
+    cases hd : decodedHit H st name qtype qclass cd client with
+    | some e => simp [hd] at h
+    | none =>
+      simp only [hd] at h
+      cases hf : failureLookup H fs name qtype qclass cd client <;> simp [hf] at h
+  · intro st fs cd hasECS c h
+    unfold storeGet at h
+    simp only [hnone bh, ite_self] at h
+    cases hd : storeLookup H st name qtype qclass cd with
+    | some e => simp [hd] at h
+    | none =>
+      simp only [hd] at h
+      cases hf : failureLookup H fs name qtype qclass cd none <;> simp [hf] at h
+
+/-- non-vacuity: three nested cuts (the name, its parent, the TLD) and one of another class —
+the purge leaves only the other-class cut, and the lookup that hit before finds nothing. -/
+example :
+    let n : Bytes := [97, 46, 98, 46, 99, 46]
+    let cs : List Cut := [
+      { id := 1, name := [98, 46, 99, 46], qclass := 1, active := true, wireOk := true },
+      { id := 2, name := [99, 46], qclass := 1, active := true, wireOk := true },
+      { id := 3, name := n, qclass := 1, active := true, wireOk := true },
+      { id := 4, name := [99, 46], qclass := 3, active := true, wireOk := true }]
+    (cutLookup { entries := cs } n 1).map (·.id) = some 3 ∧
+      (purgeCutsLoop cs n 1).map (·.id) = [4] ∧
+      cutLookup { entries := purgeCutsLoop cs n 1 } n 1 = none := by decide
+
+/-- **Failure lookups never cross the CD partition, on any route**: a question-kind failure
+state handed out by the Store wrapper (`Store.LookupFailure`), by the wire lookup, or by any of
+the three ladders carries exactly the CD bit of the request that received it.  (Zone-kind
+states are CD-independent by design and carry no CD bit.) -/
+theorem failure_lookup_never_crosses_cd (H : Bytes → UInt64) (W : World) (name w : Bytes) (qtype qclass : UInt16)
+    (cd : Bool) (scope : Scope) (hasECS : Bool) (due : Entry → Bool) (f : FEntry) (hk : f.kind = FKind.question) :
+    (storeLookupFailure H W.fs name qtype qclass cd scope = some f → f.cd = cd) ∧
+    (failureLookupWire H W.fs w qtype qclass cd = some f → f.cd = cd) ∧
+    (serveMsg H W name qtype qclass cd scope hasECS = Outcome.fail f → f.cd = cd) ∧
+    (storeGet H W name qtype qclass cd hasECS = Outcome.fail f → f.cd = cd) ∧
+    (serveWire H W w qtype qclass cd due = Outcome.fail f → f.cd = cd) := by
+  have ofFail : ∀ n sc, FailOK n qtype qclass cd sc f → f.cd = cd := by
+    intro n sc h
+    rcases h.2 with h | h
+    · exact h.2.2.2.2.1
+    · rw [hk] at h; exact absurd h.1 (by decide)
+  have ofWire : WireFailOK w qtype qclass cd f → f.cd = cd := by
+    intro h
+    rcases h.2 with h | h
+    · exact h.2.2.2.1
+    · rw [hk] at h; exact absurd h.1 (by decide)
+  refine ⟨?_, ?_, ?_, ?_, ?_⟩
+  · intro h
+    exact ofFail _ _ (route_identity_failureLookup H W.fs name qtype qclass cd scope f h)
+  · intro h
+    exact ofWire (route_identity_failureLookupWire H W.fs w qtype qclass cd f h)
+  · intro h
+    have := ladder_identity_serveMsg H W name qtype qclass cd scope hasECS
+    rw [h] at this
+    exact ofFail _ _ this
+  · intro h
+    have := ladder_identity_storeGet H W name qtype qclass cd hasECS
+    rw [h] at this
+    exact ofFail _ _ this
+  · intro h
+    have := ladder_identity_serveWire H W w qtype qclass cd due
+    rw [h] at this
+    rcases this with h | ⟨p, _, h⟩
+    · exact ofWire h
+    · exact ofFail _ _ h
+
+/-- non-vacuity: a CD=0 failure is found by the CD=0 request through the Store wrapper and NOT
+by the CD=1 twin (which misses rather than borrowing the other partition's state). -/
+example :
+    let H : Bytes → UInt64 := fun b => b.foldl (fun a x => a * 31 + x.toUInt64) 7
+    let n : Bytes := [97, 46]
+    let f : FEntry := { id := 1, kind := FKind.question, name := n, qtype := 1, qclass := 1, cd := false,
+                        scope := none, active := true }
+    let fs : FStore := fun h => if h = failureQuestionHash H n 1 1 false none then some f else none
+    (storeLookupFailure H fs n 1 1 false none).map (·.id) = some 1 ∧
+      storeLookupFailure H fs n 1 1 true none = none := by decide +kernel
+
 /-- **`FailureCache.ResetQuestion` only deletes its own question**: a state disappears
 only if it sits under the hash of the (canonical name, type, class, CD, audience) being
 reset AND carries exactly that identity — a colliding state of another question stays. -/
